@@ -428,6 +428,15 @@ func genRefinement(ld *Loader, specs *Specs, rf *Refinement) *FuncVC {
 		env := mkEnv(tr.pre)
 		env.useOld = true
 		ts, all := tr.allTargets(env, ict)
+		for _, h := range rf.Hidden {
+			hts, hall := tr.targetsOf(env, h)
+			if !hall {
+				ts = append(ts, hts...)
+			}
+		}
+		if rf.HiddenSrc != "" {
+			e.note("refinement %s: private storage exempt from the interface frame: %s", label, rf.HiddenSrc)
+		}
 		tr.frameTs, tr.frameAll, tr.frameDone = ts, all, true
 		tr.rets = []retInfo{{cond: tTrue, st: post}}
 		if !all {
